@@ -16,6 +16,15 @@ Model/Obs.vos Model/Obs.vok Model/Obs.required_vos: Model/Obs.v Model/Types.vos 
 Model/Codec.vo Model/Codec.glob Model/Codec.v.beautified Model/Codec.required_vo: Model/Codec.v Model/Types.vo Model/Book.vo Model/Obs.vo
 Model/Codec.vio: Model/Codec.v Model/Types.vio Model/Book.vio Model/Obs.vio
 Model/Codec.vos Model/Codec.vok Model/Codec.required_vos: Model/Codec.v Model/Types.vos Model/Book.vos Model/Obs.vos
+Model/Rng.vo Model/Rng.glob Model/Rng.v.beautified Model/Rng.required_vo: Model/Rng.v Model/Types.vo
+Model/Rng.vio: Model/Rng.v Model/Types.vio
+Model/Rng.vos Model/Rng.vok Model/Rng.required_vos: Model/Rng.v Model/Types.vos
+Model/Env.vo Model/Env.glob Model/Env.v.beautified Model/Env.required_vo: Model/Env.v Model/Types.vo Model/Map.vo Model/Side.vo Model/Book.vo Model/Obs.vo Model/Rng.vo
+Model/Env.vio: Model/Env.v Model/Types.vio Model/Map.vio Model/Side.vio Model/Book.vio Model/Obs.vio Model/Rng.vio
+Model/Env.vos Model/Env.vok Model/Env.required_vos: Model/Env.v Model/Types.vos Model/Map.vos Model/Side.vos Model/Book.vos Model/Obs.vos Model/Rng.vos
+Model/EnvObs.vo Model/EnvObs.glob Model/EnvObs.v.beautified Model/EnvObs.required_vo: Model/EnvObs.v Model/Types.vo Model/Book.vo Model/Obs.vo Model/Codec.vo Model/Rng.vo Model/Env.vo
+Model/EnvObs.vio: Model/EnvObs.v Model/Types.vio Model/Book.vio Model/Obs.vio Model/Codec.vio Model/Rng.vio Model/Env.vio
+Model/EnvObs.vos Model/EnvObs.vok Model/EnvObs.required_vos: Model/EnvObs.v Model/Types.vos Model/Book.vos Model/Obs.vos Model/Codec.vos Model/Rng.vos Model/Env.vos
 Spec/RefBook.vo Spec/RefBook.glob Spec/RefBook.v.beautified Spec/RefBook.required_vo: Spec/RefBook.v Model/Types.vo Model/Book.vo Model/Obs.vo
 Spec/RefBook.vio: Spec/RefBook.v Model/Types.vio Model/Book.vio Model/Obs.vio
 Spec/RefBook.vos Spec/RefBook.vok Spec/RefBook.required_vos: Spec/RefBook.v Model/Types.vos Model/Book.vos Model/Obs.vos
@@ -25,6 +34,9 @@ Spec/Monitors.vos Spec/Monitors.vok Spec/Monitors.required_vos: Spec/Monitors.v 
 Spec/Runner.vo Spec/Runner.glob Spec/Runner.v.beautified Spec/Runner.required_vo: Spec/Runner.v Model/Types.vo Model/Book.vo Model/Obs.vo Model/Codec.vo Spec/RefBook.vo Spec/Monitors.vo
 Spec/Runner.vio: Spec/Runner.v Model/Types.vio Model/Book.vio Model/Obs.vio Model/Codec.vio Spec/RefBook.vio Spec/Monitors.vio
 Spec/Runner.vos Spec/Runner.vok Spec/Runner.required_vos: Spec/Runner.v Model/Types.vos Model/Book.vos Model/Obs.vos Model/Codec.vos Spec/RefBook.vos Spec/Monitors.vos
+Spec/EnvRunner.vo Spec/EnvRunner.glob Spec/EnvRunner.v.beautified Spec/EnvRunner.required_vo: Spec/EnvRunner.v Model/Types.vo Model/Book.vo Model/Obs.vo Model/Codec.vo Model/Rng.vo Model/Env.vo Model/EnvObs.vo Spec/RefBook.vo Spec/Monitors.vo Spec/Runner.vo
+Spec/EnvRunner.vio: Spec/EnvRunner.v Model/Types.vio Model/Book.vio Model/Obs.vio Model/Codec.vio Model/Rng.vio Model/Env.vio Model/EnvObs.vio Spec/RefBook.vio Spec/Monitors.vio Spec/Runner.vio
+Spec/EnvRunner.vos Spec/EnvRunner.vok Spec/EnvRunner.required_vos: Spec/EnvRunner.v Model/Types.vos Model/Book.vos Model/Obs.vos Model/Codec.vos Model/Rng.vos Model/Env.vos Model/EnvObs.vos Spec/RefBook.vos Spec/Monitors.vos Spec/Runner.vos
 Proofs/Basic.vo Proofs/Basic.glob Proofs/Basic.v.beautified Proofs/Basic.required_vo: Proofs/Basic.v Model/Types.vo Model/Map.vo Model/Side.vo Model/Book.vo
 Proofs/Basic.vio: Proofs/Basic.v Model/Types.vio Model/Map.vio Model/Side.vio Model/Book.vio
 Proofs/Basic.vos Proofs/Basic.vok Proofs/Basic.required_vos: Proofs/Basic.v Model/Types.vos Model/Map.vos Model/Side.vos Model/Book.vos
@@ -52,3 +64,21 @@ Proofs/Ledger.vos Proofs/Ledger.vok Proofs/Ledger.required_vos: Proofs/Ledger.v 
 Properties/C03.vo Properties/C03.glob Properties/C03.v.beautified Properties/C03.required_vo: Properties/C03.v Model/Types.vo Model/Book.vo Proofs/Ledger.vo
 Properties/C03.vio: Properties/C03.v Model/Types.vio Model/Book.vio Proofs/Ledger.vio
 Properties/C03.vos Properties/C03.vok Properties/C03.required_vos: Properties/C03.v Model/Types.vos Model/Book.vos Proofs/Ledger.vos
+Proofs/EnvProps.vo Proofs/EnvProps.glob Proofs/EnvProps.v.beautified Proofs/EnvProps.required_vo: Proofs/EnvProps.v Model/Types.vo Model/Map.vo Model/Side.vo Model/Book.vo Model/Obs.vo Model/Rng.vo Model/Env.vo Model/EnvObs.vo Proofs/Basic.vo
+Proofs/EnvProps.vio: Proofs/EnvProps.v Model/Types.vio Model/Map.vio Model/Side.vio Model/Book.vio Model/Obs.vio Model/Rng.vio Model/Env.vio Model/EnvObs.vio Proofs/Basic.vio
+Proofs/EnvProps.vos Proofs/EnvProps.vok Proofs/EnvProps.required_vos: Proofs/EnvProps.v Model/Types.vos Model/Map.vos Model/Side.vos Model/Book.vos Model/Obs.vos Model/Rng.vos Model/Env.vos Model/EnvObs.vos Proofs/Basic.vos
+Properties/C08.vo Properties/C08.glob Properties/C08.v.beautified Properties/C08.required_vo: Properties/C08.v Model/Types.vo Model/Book.vo Model/Obs.vo Model/Rng.vo Model/Env.vo Proofs/EnvProps.vo
+Properties/C08.vio: Properties/C08.v Model/Types.vio Model/Book.vio Model/Obs.vio Model/Rng.vio Model/Env.vio Proofs/EnvProps.vio
+Properties/C08.vos Properties/C08.vok Properties/C08.required_vos: Properties/C08.v Model/Types.vos Model/Book.vos Model/Obs.vos Model/Rng.vos Model/Env.vos Proofs/EnvProps.vos
+Properties/C10.vo Properties/C10.glob Properties/C10.v.beautified Properties/C10.required_vo: Properties/C10.v Model/Types.vo Model/Book.vo Model/Obs.vo Model/Rng.vo Model/Env.vo Proofs/EnvProps.vo
+Properties/C10.vio: Properties/C10.v Model/Types.vio Model/Book.vio Model/Obs.vio Model/Rng.vio Model/Env.vio Proofs/EnvProps.vio
+Properties/C10.vos Properties/C10.vok Properties/C10.required_vos: Properties/C10.v Model/Types.vos Model/Book.vos Model/Obs.vos Model/Rng.vos Model/Env.vos Proofs/EnvProps.vos
+Properties/C11.vo Properties/C11.glob Properties/C11.v.beautified Properties/C11.required_vo: Properties/C11.v Model/Types.vo Model/Book.vo Model/Obs.vo Model/Rng.vo Model/Env.vo Model/EnvObs.vo Proofs/EnvProps.vo
+Properties/C11.vio: Properties/C11.v Model/Types.vio Model/Book.vio Model/Obs.vio Model/Rng.vio Model/Env.vio Model/EnvObs.vio Proofs/EnvProps.vio
+Properties/C11.vos Properties/C11.vok Properties/C11.required_vos: Properties/C11.v Model/Types.vos Model/Book.vos Model/Obs.vos Model/Rng.vos Model/Env.vos Model/EnvObs.vos Proofs/EnvProps.vos
+Properties/C14.vo Properties/C14.glob Properties/C14.v.beautified Properties/C14.required_vo: Properties/C14.v Model/Types.vo Model/Book.vo Model/Obs.vo Model/Rng.vo Model/Env.vo Proofs/EnvProps.vo
+Properties/C14.vio: Properties/C14.v Model/Types.vio Model/Book.vio Model/Obs.vio Model/Rng.vio Model/Env.vio Proofs/EnvProps.vio
+Properties/C14.vos Properties/C14.vok Properties/C14.required_vos: Properties/C14.v Model/Types.vos Model/Book.vos Model/Obs.vos Model/Rng.vos Model/Env.vos Proofs/EnvProps.vos
+Properties/C15.vo Properties/C15.glob Properties/C15.v.beautified Properties/C15.required_vo: Properties/C15.v Model/Types.vo Model/Rng.vo Model/Env.vo Proofs/EnvProps.vo
+Properties/C15.vio: Properties/C15.v Model/Types.vio Model/Rng.vio Model/Env.vio Proofs/EnvProps.vio
+Properties/C15.vos Properties/C15.vok Properties/C15.required_vos: Properties/C15.v Model/Types.vos Model/Rng.vos Model/Env.vos Proofs/EnvProps.vos
